@@ -860,6 +860,14 @@ impl CaseRun {
         // a pooled block without callback that is delivered again: the pool entry is replaced by this
         // copy (which carries a callback) — it stops being `foreign` before the quiescence probe runs
         let was_foreign = self.foreign.remove(&id);
+        // the re-delivered copy REPLACES the callback-less pool entry (the model's `dropped` verdict) iff
+        // `process_lonely_block` takes its third branch: parent neither pending (the node is quiescent:
+        // nothing is pending) nor stored nor BLOCK_INVALID. Decided BEFORE the delivery: the search that
+        // follows may release or reject the replaced entry in the same operation (thorough case 1009).
+        let replaces_foreign = was_foreign && {
+            let ps = self.node().shared.get_block_status(&self.get(parent).hash);
+            !ps.contains(BlockStatus::BLOCK_STORED) && ps != BlockStatus::BLOCK_INVALID
+        };
         let alive = self.node().controller().verif_process_lonely_block_sync(lb);
         if id != 0 {
             self.delivered.insert(id);
@@ -872,7 +880,7 @@ impl CaseRun {
         }
         let mut events: Vec<(usize, Verdict)> = self.log.lock().unwrap().events[first..].to_vec();
         let mut hint: Vec<usize> = events.iter().filter(|(i, v)| *v != Verdict::Drop && *i != id).map(|(i, _)| *i).collect();
-        self.foreign_events(id, was_foreign, &mut events, &mut hint);
+        self.foreign_events(id, replaces_foreign, &mut events, &mut hint);
         let mut cbs = events.clone();
         cbs.sort();
         for (_, v) in &cbs {
@@ -910,8 +918,8 @@ impl CaseRun {
     /// (`known` is impossible: a pooled block has no ext.) Synthesised ids are appended to the hint in
     /// ascending order; the generator of family `restart` never has two siblings pooled together, so
     /// the release order of foreign entries is determined by the tree.
-    fn foreign_events(&mut self, delivered_id: usize, was_foreign: bool, events: &mut Vec<(usize, Verdict)>, hint: &mut Vec<usize>) {
-        if was_foreign && self.in_pool(delivered_id) {
+    fn foreign_events(&mut self, delivered_id: usize, replaces_foreign: bool, events: &mut Vec<(usize, Verdict)>, hint: &mut Vec<usize>) {
+        if replaces_foreign {
             events.push((delivered_id, Verdict::Drop));
         }
         if self.foreign.is_empty() {
@@ -1098,6 +1106,51 @@ impl CaseRun {
             let pool: HashSet<usize> = self.pool_ids().into_iter().collect();
             self.foreign.retain(|x| pool.contains(x));
         }
+    }
+
+    // ---- the sync layer's writes (Model/ChainSync.lean) -----------------------------------------
+
+    /// `hdr <id>`: what `HeadersProcess` + `SyncShared::insert_valid_header` do to the HeaderMap: a header
+    /// whose status already contains HEADER_VALID is known, a BLOCK_INVALID one is rejected, so the real
+    /// `header_map().insert` happens only for an UNKNOWN block.
+    /// `mark <id>`: `SyncShared::new_block_received`: BLOCK_RECEIVED is written (real `insert_block_status`)
+    /// only when the status is exactly HEADER_VALID and the status map has no entry.
+    /// The node is quiescent, nothing else runs; the answer is the full state line (the `st=` letters show
+    /// the entry; later chain operations must remove / overwrite it as the model says).
+    fn sync_write(&mut self, out: &mut Out, id: usize, mark: bool) {
+        if self.dead {
+            return;
+        }
+        if self.prev.is_none() {
+            let g = self.get(0).work;
+            self.prev = Some((0, g));
+        }
+        let b = self.get(id).clone();
+        let td = self.total_work(id);
+        {
+            let shared = &self.node().shared;
+            let status = shared.get_block_status(&b.hash);
+            if mark {
+                out.count("sync-mark-op");
+                if status == BlockStatus::HEADER_VALID && !shared.block_status_map().contains_key(&b.hash) {
+                    shared.insert_block_status(b.hash.clone(), BlockStatus::BLOCK_RECEIVED);
+                    out.count("sync-mark-written");
+                }
+            } else {
+                out.count("sync-hdr-op");
+                if status == BlockStatus::UNKNOWN {
+                    let h = b.block.header();
+                    shared.header_map().insert(ckb_shared::HeaderIndexView::new(b.hash.clone(), h.number(), h.epoch(), h.timestamp(), h.parent_hash(), U256::from(td as u64)));
+                    out.count("sync-hdr-written");
+                } else if status != BlockStatus::BLOCK_INVALID {
+                    out.count("sync-hdr-refused-on-known-block");
+                }
+            }
+        }
+        let v = self.read_state(out);
+        let op = format!("{} {}", if mark { "mark" } else { "hdr" }, id);
+        out.op(&op, &state_line(&[], &v));
+        let _ = self.oracle(out, &v, true, &op);
     }
 
     // ---- stop / restart ------------------------------------------------------------------------
@@ -1420,6 +1473,7 @@ impl CaseRun {
             "expiry" => out.count("expiry-case"),
             "restart" => out.count("restart-case"),
             "content" => out.count("content-case"),
+            "sync" => out.count("sync-case"),
             _ => {}
         }
         if self.restarts > 0 && self.had_reorg {
@@ -1790,6 +1844,58 @@ fn generate(out: &mut Out, opts: &Opts, builder_base: &Path, node_base: &Path) {
         }
     }
     let t_content = t0.elapsed() - t_gen - t_uneven - t_expiry - t_restart;
+    // ---- family "sync": the sync layer's HeaderMap / BLOCK_RECEIVED writes between serialised deliveries
+    // (own random stream, so that the other families' cases do not depend on it)
+    let mut srng = Rng::new(opts.seed ^ 0x5c_5c_a11e);
+    let strees = if only_restart { 0 } else if opts.thorough() { 12 * opts.scale } else { 3 * opts.scale };
+    for tno in 0..strees {
+        let cfg = NodeCfg { epoch_len: srng.range(3, 6), with_pool: false, ..Default::default() };
+        let consensus = make_consensus(&cfg);
+        let n = srng.range(8, 24) as usize;
+        let tree = gen_tree(&mut srng, n);
+        let bdir = builder_base.join(format!("s{tno}"));
+        let mut builder = ChainBuilder::new(consensus.clone(), &bdir);
+        builder.max_branch_stores = 12;
+        let mut blks = vec![genesis_blk(&consensus)];
+        for id in 1..=n {
+            let leaf = !tree.parent[id + 1..].contains(&id);
+            let b = build_blk(&mut builder, id, &blks[tree.parent[id]].clone(), tree.kind[id], leaf);
+            blks.push(b);
+        }
+        drop(builder);
+        let _ = std::fs::remove_dir_all(&bdir);
+        for ono in 0..2 {
+            let order = gen_order(&mut srng, &tree);
+            let mut ops = vec![];
+            for id in order {
+                // a header (and then a received mark) for the block about to arrive — as a peer's
+                // headers / block message would —, for some other block (verified ones included: refused),
+                // or nothing
+                match srng.below(6) {
+                    0 | 1 => {
+                        ops.push(Op::Hdr(id));
+                        if srng.chance(2, 3) {
+                            ops.push(Op::Mark(id));
+                        }
+                    }
+                    2 => {
+                        let x = srng.range(1, n as u64) as usize;
+                        ops.push(Op::Hdr(x));
+                        if srng.chance(1, 2) {
+                            ops.push(Op::Mark(x));
+                        }
+                    }
+                    3 => ops.push(Op::Mark(srng.range(1, n as u64) as usize)),
+                    _ => {}
+                }
+                ops.push(Op::Deliver(id));
+            }
+            let chain = Chain::Flat { el: cfg.epoch_len };
+            let label = format!("{} mode=ser thr=1 fam=sync tree={} ord={} n={}", chain.label(), tno, ono, n);
+            run_case(out, node_base, &label, &chain, 1, "sync", &blks, &ops);
+            cases += 1;
+        }
+    }
     eprintln!("C01: content {:.1}s", t_content.as_secs_f64());
     eprintln!("C01: general {:.1}s, uneven {:.1}s, expiry {:.1}s, restart {:.1}s", t_gen.as_secs_f64(), t_uneven.as_secs_f64(), t_expiry.as_secs_f64(), t_restart.as_secs_f64());
     eprintln!(
@@ -1813,6 +1919,9 @@ enum Op {
     BurstStop(Vec<usize>),
     /// `restart`: (stop and) start the node on the same directory
     Restart,
+    /// `hdr <id>` / `mark <id>`: the sync layer's HeaderMap / BLOCK_RECEIVED writes
+    Hdr(usize),
+    Mark(usize),
 }
 
 fn run_case(out: &mut Out, node_base: &Path, label: &str, chain: &Chain, threads: usize, family: &'static str, blks: &[Blk], ops: &[Op]) {
@@ -1830,6 +1939,8 @@ fn run_case(out: &mut Out, node_base: &Path, label: &str, chain: &Chain, threads
             Op::Stop => run.stop(out),
             Op::BurstStop(ids) => run.burst_stop(out, ids),
             Op::Restart => run.restart(out),
+            Op::Hdr(id) => run.sync_write(out, *id, false),
+            Op::Mark(id) => run.sync_write(out, *id, true),
         }
         if run.dead {
             break;
@@ -2606,6 +2717,8 @@ fn replay(out: &mut Out, ops: &[String], builder_base: &Path, node_base: &Path) 
                     "restart"
                 } else if t[2..].contains(&"fam=content") {
                     "content"
+                } else if t[2..].contains(&"fam=sync") {
+                    "sync"
                 } else {
                     "gen"
                 };
@@ -2665,6 +2778,11 @@ fn replay(out: &mut Out, ops: &[String], builder_base: &Path, node_base: &Path) 
                 let ids = parse_ids(t[1]);
                 assert!(!ids.is_empty(), "empty burststop");
                 rc.run.burst_stop(out, &ids);
+            }
+            "hdr" | "mark" => {
+                let rc = cur.as_mut().expect("hdr/mark before case");
+                let id: usize = t[1].parse().expect("id");
+                rc.run.sync_write(out, id, t[0] == "mark");
             }
             "restart" => {
                 // max_epoch_length and the scan order are recomputed by this run
